@@ -193,12 +193,16 @@ Proof.
 Qed.
 
 Lemma normalized_sum_bounds {A} (q : A -> Z) (l : list A) r : 100 < r ->
+  (forall x, In x l -> 0 < q x) ->
   let S := sumZ (map (fun c => normalized r (q c)) l) in
-  sumZ (map q l) * 100 <= r * S < sumZ (map q l) * 100 + Z.of_nat (length l) * r + 1.
+  let n := Z.of_nat (length l) in
+  ratio_mant r * (S - n) <= sumZ (map q l) * ratio_den r <= ratio_mant r * (S + n).
 Proof.
-  intros Hr. cbv zeta. induction l as [|c l IH]; cbn [map length].
+  intros Hr Hpos. cbv zeta. induction l as [|c l IH]; cbn [map length].
   - rewrite !sumZ_nil. lia.
-  - rewrite !sumZ_cons, Nat2Z.inj_succ, Z.mul_add_distr_l. pose proof (normalized_bounds r (q c) Hr). lia.
+  - rewrite !sumZ_cons, Nat2Z.inj_succ.
+    pose proof (normalized_near r (q c) Hr (Hpos c (or_introl eq_refl))).
+    specialize (IH ltac:(intros; apply Hpos; now right)). lia.
 Qed.
 
 (* pod quota versus the sum of the container quotas, both after normalization *)
@@ -206,30 +210,46 @@ Lemma quota_near_sum {A} (f : A -> Z) (l : list A) r :
   (forall x, In x l -> 0 < f x) -> l <> [] ->
   let P := normalized r (MilliCPUToQuota (sumZ (map f l))) in
   let S := sumZ (map (fun c => normalized r (MilliCPUToQuota (f c))) l) in
-  P <= S <= P + Z.of_nat (length l) * CFSQuotaMinValue.
+  let n := Z.of_nat (length l) in
+  P <= S + (if 100 <? r then n else 0) /\ S <= P + n * CFSQuotaMinValue.
 Proof.
-  intros Hpos Hne P S.
-  pose proof (quota_sum_bounds f l Hpos Hne) as HB. cbv zeta in HB.
-  set (n := Z.of_nat (length l)) in *.
-  assert (1 <= n) by (unfold n; destruct l; [congruence|cbn [length]; lia]).
-  destruct (Z.leb_spec r 100) as [Hr|Hr].
-  - (* ratio not above 1: no scaling *)
+  intros Hpos Hne P S n.
+  pose proof (quota_sum_bounds f l Hpos Hne) as HB. cbv zeta in HB. fold n in HB.
+  assert (Hn : 1 <= n) by (unfold n; destruct l; [congruence|cbn [length]; lia]).
+  destruct (100 <? r) eqn:Er; [apply Z.ltb_lt in Er|apply Z.ltb_ge in Er].
+  2:{ (* ratio not above 1: no scaling *)
     assert (HP : P = MilliCPUToQuota (sumZ (map f l))).
     { unfold P, normalized. now replace (100 <? r) with false by (symmetry; apply Z.ltb_ge; lia). }
     assert (HS : S = sumZ (map (fun c => MilliCPUToQuota (f c)) l)).
     { unfold S. apply sumZ_map_ext. intros x _. unfold normalized.
       now replace (100 <? r) with false by (symmetry; apply Z.ltb_ge; lia). }
-    rewrite HP, HS. unfold CFSQuotaMinValue in *. lia.
-  - pose proof (normalized_sum_bounds (fun c => MilliCPUToQuota (f c)) l r Hr) as HN. cbv zeta in HN.
-    fold S in HN. fold n in HN.
-    pose proof (normalized_bounds r (MilliCPUToQuota (sumZ (map f l))) Hr) as HPb. fold P in HPb.
-    set (A0 := sumZ (map (fun c => MilliCPUToQuota (f c)) l)) in *.
-    set (Q0 := MilliCPUToQuota (sumZ (map f l))) in *.
-    unfold CFSQuotaMinValue in *.
-    split.
-    + (* r P < 100 Q0 + r <= 100 A0 + r <= r S + r *) nia.
-    + (* r S <= 100 A0 + n r <= 100 Q0 + 90000 n + n r <= r P + 90000 n + n r, and 90000 < 900 r *)
-      assert (r * S <= r * P + 90000 * n + n * r) by nia.
-      assert (r * (S - P - 1000 * n) <= 0) by nia.
-      nia.
+    rewrite HP, HS. unfold CFSQuotaMinValue in *. lia. }
+  assert (Hqpos : forall x, In x l -> 0 < MilliCPUToQuota (f x)).
+  { intros x Hx. pose proof (quota_pos _ (Hpos x Hx)). unfold CFSQuotaMinValue in *. lia. }
+  pose proof (normalized_sum_bounds (fun c => MilliCPUToQuota (f c)) l r Er Hqpos) as HN. cbv zeta in HN.
+  fold S in HN. fold n in HN.
+  set (A0 := sumZ (map (fun c => MilliCPUToQuota (f c)) l)) in *.
+  set (Q0 := MilliCPUToQuota (sumZ (map f l))) in *.
+  assert (HQ0 : 0 < Q0).
+  { assert (0 < sumZ (map f l)).
+    { destruct l as [|c l']; [congruence|]. cbn [map]. rewrite sumZ_cons.
+      assert (0 < f c) by (apply Hpos; now left).
+      assert (0 <= sumZ (map f l')) by (apply sumZ_map_nonneg; intros x Hx; specialize (Hpos x (or_intror Hx)); lia). lia. }
+    pose proof (quota_pos _ H). unfold Q0, CFSQuotaMinValue in *. lia. }
+  pose proof (normalized_near r Q0 Er HQ0) as HPb. fold P in HPb.
+  set (M := ratio_mant r) in *. set (T := ratio_den r) in *.
+  assert (HT : 0 < T) by apply ratio_den_pos.
+  assert (HTM : T <= M) by (apply ratio_mant_ge_den; lia).
+  unfold CFSQuotaMinValue in *.
+  assert (HQA : Q0 * T <= A0 * T) by (apply Z.mul_le_mono_nonneg_r; lia).
+  assert (HAQ : A0 * T <= (Q0 + n * 900) * T) by (apply Z.mul_le_mono_nonneg_r; lia).
+  assert (HnT : n * 900 * T <= n * 900 * M) by (apply Z.mul_le_mono_nonneg_l; lia).
+  split.
+  - (* M (P - 1) < Q0 T <= A0 T <= M (S + n) *)
+    destruct (Z.le_gt_cases P (S + n)) as [Hle|Hgt]; [exact Hle|exfalso].
+    assert (M * (S + n) <= M * (P - 1)) by (apply Z.mul_le_mono_nonneg_l; lia). lia.
+  - (* M (S - n) <= A0 T <= Q0 T + 900 n T < M (P + 1) + 900 n M *)
+    destruct (Z.le_gt_cases S (P + n * 1000)) as [Hle|Hgt]; [exact Hle|exfalso].
+    assert (M * (P + 1 + n * 900) <= M * (S - n)) by (apply Z.mul_le_mono_nonneg_l; lia).
+    lia.
 Qed.
